@@ -33,3 +33,40 @@ claim("C07", "fault_enumeration",
       "Two-pass fault enumeration: pass 1 records every StoreFile call of every operation of a seeded history; pass 2 re-executes the history once per fault point (every call k of every operation, plus every destination-file call of CopyTo), failing exactly that call outright, short (reads) or torn after j bytes (writes; incl. the full-length-but-error case), and then checks error return, no panic, logical termination bound, structural reachability (stale reclaim marks), the file image re-opening to the last durable state, and the behaviour of the remaining history plus a fixed epilogue (mutations, retried Flush, re-open) against the model in which the failed call had no effect. Enumerating single fault points is the natural level: the property quantifies over 'every individual call'.",
       "Trusted: the fault-injecting StoreFile, the reference model, the decoder-free reopen comparison. One fault per execution. Calls of byte-by-byte backward scans beyond the first/last 12 are sampled (24 evenly spread). EvictSomeItems/Exist have no error result (Exist's wrong answer is a recorded known finding).",
       "runtime monitoring: single-fault enumeration over recorded StoreFile calls + differential check after the fault clears", "5/C07")
+
+claim("C02", "exploration",
+      "After every successful Flush, after each of the next 6 steps, at every re-open and at the end of seeded multi-collection histories (Flush density 5-30%, collection create/remove, Collection.Write, evictions, repeated re-open-and-continue) a second store is opened on a copy of the file image and compared completely with the model's state at the last successful Flush; the same image is parsed by the independent decoder. Unflushed work must never be visible.",
+      "Trusted: reference model, second-store comparison, independent decoder. Failed flushes are C07's; names are valid UTF-8.",
+      "runtime monitoring: reopen-and-compare oracle at every durability point", "5/C02")
+claim("C03", "fault_enumeration",
+      "Every crash image of seeded magic-laden histories is rebuilt from the StoreFile write log - every log prefix and, for the write in flight, every byte length - and opened with NewStore: it must show exactly the last Flush all of whose writes are in the image (or empty / no-roots if none), within the logical scan bound and without panic. A subset gets junk tails (random, zeros, lone doubled end marker, plausible-but-inconsistent trailers, copies/tails of older root records, a prefix of the next root record), and a subset of recovered stores mutates, flushes and re-opens again. Enumeration of crash points is exactly the property's quantifier.",
+      "Crash model = the property's: writes land in issue order, the write in flight is cut at a byte boundary. Junk tails the decoder accepts as complete root records are discarded (excluded by the statement).",
+      "runtime monitoring: exhaustive byte-granular crash-image enumeration from a recorded write log", "5/C03")
+claim("C06", "exploration",
+      "For contents of 0..40 items under three comparators and four cache states, targets are derived from the contents (every key, successor, predecessor, below/above all, empty, nil) and all six visiting APIs run in both value modes against the model's range; every early-stop position is tried; Ex depths are compared with the node's true depth taken from the hook walk + decoder and with the canonical treap depth.",
+      "Trusted: model range queries, hook walk for true depth. Visitor items are read inside the callback only.",
+      "runtime monitoring: differential range oracle over content-derived targets x APIs x stops x cache states", "5/C06")
+claim("C09", "exploration",
+      "An online monitor inside the instrumented StoreFile judges every WriteAt/Truncate with the API call in progress as tag (append-only above the last durable root record; writes only from Flush/Collection.Write/CopyTo-destination; truncates only from FlushRevert of the writable store to a root-record end or 0). It is active in every check; the dedicated check adds histories over all operations and sweeps of every read-only entry point in four cache states that must leave the file untouched and byte-identical.",
+      "'All call paths' is covered only as far as executed (entry point x cache state matrix in the evidence). A root record whose write reported an error is not durable.",
+      "runtime monitoring: online assertion on every file write/truncate correlated with the API call in progress", "5/C09")
+claim("C11", "exploration",
+      "Sources in five states (dirty, flushed, evicted, re-opened, memory-only; 0-4 collections incl. empty, custom comparators, files with superseded item versions) are copied from the store and from a snapshot for every flushEvery in {-1,0,1,2,3,n-1,n,n+1,10n}; the returned store, the re-opened destination, the decoded destination, the destination write log (every item record live, count = live items), the source write log and the source contents are all checked.",
+      "Trusted: model, decoder, write-log classification of item records (harness values never mimic item headers).",
+      "runtime monitoring: differential + write-log conservation (item records written = live items)", "5/C11")
+claim("C13", "exploration",
+      "Exhaustive sub-space: every insertion order x every priority ranking for n <= 5 (quick) / 6 (thorough) keys, each with every single delete/re-insert, flush, evict, re-open and further mutation; after every step the hook walk completed by the decoder recomputes all aggregates, checks key order, heap order and the canonical (unique treap) depth of every item, the same shape oracle runs through the public API alone, and the decoder validates every flushed image. Random part: up to 200 items with deletes, overwrites at lower/equal/higher priority, ties, custom comparators, value-length callbacks.",
+      "Heap/shape clauses are off from the first lowering overwrite until the collection is empty (as the statement allows); shape clause off under tied priorities.",
+      "runtime monitoring: per-node invariant walk at every quiescent point, exhaustive over small insertion orders x rankings", "5/C13")
+claim("C14", "exploration",
+      "An independent decoder (standard library only) parses the image after every Flush and every CopyTo destination of seeded histories (keys 1..65535 bytes, values 0..1 MB, 0-4 collections, exotic names, all callback configurations) and must accept every structural rule and reproduce the model's flushed state; the last write of each Flush must be one root record. Reader side: files written by the harness's own independent encoder (other tree shapes, 1-3 appended flushes) must be read back exactly by gkvlite and then extended.",
+      "The decoder's reading of the format description is the specification. Decoder independence is asserted by its import list.",
+      "runtime monitoring: independent decoder as offline checker of every produced file + independent encoder for reader-side conformance", "5/C14")
+claim("C17", "exploration",
+      "All 64 subsets of six neutral callback groups are enumerated for every history; under each subset the C01, C02, C06 and C14 oracles run, and the execution is compared with the empty configuration: identical operation/result trace, eviction counts and byte-identical file. A subset whose callbacks were not all invoked is not counted as non-trivial.",
+      "The callbacks are generated by the harness and are neutral by construction.",
+      "runtime monitoring: configuration enumeration x differential oracles + cross-configuration equality", "5/C17")
+claim("C19", "exploration",
+      "An online monitor inside the instrumented StoreFile judges every ReadAt with the API call in progress: during NewStore reads must lie inside the final root record (and be at most 4), after open the hook walk must find nothing cached, and opening files of 10/100/1000 items must cost the same number of calls; during key-only operations no read may intersect the value bytes of any item reachable from any root record ever completed (ranges from the independent decoder).",
+      "Value ranges come from the decoder run on completed root records; zero-length values have no range.",
+      "runtime monitoring: online assertion on every file read against decoder-derived value byte ranges", "5/C19")
